@@ -103,6 +103,11 @@ def check(run):
     if nst < 2:
         run.broke('tcp::acceptor::async_accept: stores of m_accept_into / m_remote_endpoint not found')
 
+    run.clause('a connect reaches exactly the socket listening on the dialled endpoint: registry look-ups select by exact key (shared with C11); a reused socket object starts its next connection from fresh per-connection state (shared with C05)')
+    import p11, p05
+    p11.exact_key_rule(run)
+    p05.close_resets_rule(run)
+
     run.clause('refusal: on the error path of async_connect the channel is dropped and the completion goes through m_connect_timer armed with a positive constant; never post')
     ac = fx.fn1(T + '::async_connect')
     run.touch(ac)
